@@ -1693,6 +1693,18 @@ where
                 return events;
             }
 
+            // Check receive_maximum before anything is stored and before the topic alias table
+            // is consulted: a refused packet is never seen by the receiver and must leave no
+            // trace (not even in the least-recently-used order of the aliases).
+            if let Some(max) = self.publish_send_max {
+                if self.publish_send_count >= max {
+                    events.push(GenericEvent::NotifyError(MqttError::ReceiveMaximumExceeded));
+                    self.pid_man.release_id(packet_id);
+                    events.push(GenericEvent::NotifyPacketIdReleased(packet_id));
+                    return events;
+                }
+            }
+
             if self.need_store
                 && (self.status != ConnectionStatus::Disconnected || self.offline_publish)
             {
@@ -1734,27 +1746,6 @@ where
         }
 
         let packet_id_opt = packet.packet_id();
-
-        // Check receive_maximum for sending (QoS 1 and 2 packets) before the topic alias
-        // table is touched: a refused packet is never seen by the receiver, so it must not
-        // register or re-bind an alias.
-        if packet.qos() == Qos::AtLeastOnce || packet.qos() == Qos::ExactlyOnce {
-            if let Some(max) = self.publish_send_max {
-                if self.publish_send_count >= max {
-                    events.push(GenericEvent::NotifyError(MqttError::ReceiveMaximumExceeded));
-                    if let Some(packet_id) = packet_id_opt {
-                        if self.pid_man.is_used_id(packet_id) {
-                            self.pid_man.release_id(packet_id);
-                            self.store.erase_publish(packet_id);
-                            self.pid_puback.remove(&packet_id);
-                            self.pid_pubrec.remove(&packet_id);
-                            events.push(GenericEvent::NotifyPacketIdReleased(packet_id));
-                        }
-                    }
-                    return events;
-                }
-            }
-        }
 
         let ta_opt = Self::get_topic_alias_from_props(packet.props());
         if packet.topic_name().is_empty() {
